@@ -78,6 +78,17 @@ def run_property(pid: str, tier: str, repo_root: str, seed: int, only_key=None) 
             chk.note(msg)
             print('NOTE: ' + msg)
         if tier == 'thorough' and not only_key and os.environ.get('SA_NO_SELFTEST') != '1':
+            # cross-check of the callee resolution (sa.index) against mypy's type-resolved program
+            import subprocess
+            pr = subprocess.run([sys.executable, '-m', 'sa.mypycheck', repo.root], capture_output=True, text=True, cwd=os.path.dirname(os.path.dirname(os.path.abspath(__file__))),
+                                timeout=600)
+            try:
+                mc = json.loads([l for l in pr.stdout.splitlines() if l.startswith('{')][-1])
+            except Exception:  # noqa
+                mc = {'available': False, 'why': (pr.stderr or pr.stdout)[-200:]}
+            chk.extra['mypy_cross_check'] = mc
+            if mc.get('disagreements'):
+                raise AnalysisError('E1', 'callee resolution', 'sa.index and mypy disagree on the defining class of: ' + '; '.join(mc['disagreements'][:3]))
             from . import selftest
             selftest.run_for(chk)
         return chk.finish()
